@@ -3,5 +3,11 @@ package props
 
 import (
 	_ "verif/props/c01"
+	_ "verif/props/c07"
+	_ "verif/props/c08"
+	_ "verif/props/c09"
+	_ "verif/props/c19"
 	_ "verif/props/c24"
+	_ "verif/props/c26"
+	_ "verif/props/c30"
 )
